@@ -7,10 +7,12 @@ from common import bits2float, float2bits
 PROP = "C12"
 PROPS_FILES = ["Pms/Props/C12.lean"]
 GENERATORS = ["pair"]
-RULE = ("random decimal-grid arguments (r, ε, σ, r_c, n, A, α) in the stated domains × 3 models × shift on/off; each "
+RULE = ("three streams: (1) random decimal-grid arguments (r, ε, σ, r_c, n, A, α) in the stated domains × 3 models × shift on/off; each "
         "evaluation compares the regenerated Lean term (Float) with the real method AND the real method with "
         "40-digit derivatives of the documented potential; non-trivial = all three returned values finite and s2 ≠ 0; "
-        "distinct = distinct argument tuples")
+        "distinct = distinct argument tuples; (2) exact ties r == σ (harmonic/Hertz, integer α ≥ 2) and r == r_c (LJ, IPL); "
+        "(3) call histories in one process: base case, siblings differing in exactly one argument, base again — every call judged "
+        "against the documented derivative (hidden state between calls)")
 TRUSTED_BASE = [
     "Lean 4.33 kernel; axioms propext, Classical.choice, Quot.sound only; Mathlib HasDerivAt / Real.rpow as the meaning of derivative and real power",
     "translator/pms2lean.py expression printer (names, numerals, + - * / **, unary minus, if self.shift) — validated numerically every run against the real methods",
@@ -90,6 +92,57 @@ def gen_case(rng):
     return c
 
 
+def gen_tie(rng):
+    """exact ties: harmonic/Hertz at contact r == σ (integer α ≥ 2, where the documented potential is a polynomial and the
+    code divides by nothing), LJ / IPL at r == r_c"""
+    c = gen_case(rng)
+    if c["model"] == "hh":
+        c["alpha"] = float(rng.choice(["2", "3", "4", "2", "5"]))
+        c["r"] = c["sig"]
+        c["rc"] = c["sig"]
+    else:
+        c["r"] = c["rc"]
+    return c
+
+
+def gen_history(rng):
+    """a call history in ONE process: a base case, then siblings that differ from it in exactly one argument, then the base
+    again.  Every call is judged against the documented derivative, so state kept between calls (a cache keyed on a subset
+    of the arguments, a mutated default) shows up as a wrong value in a later call."""
+    base = gen_case(rng)
+    hist = [base]
+    keys = ["r", "eps", "sig", "rc", "shift"] + (["n", "A"] if base["model"] == "ipl" else []) + (["alpha"] if base["model"] == "hh" else [])
+    rng.shuffle(keys)
+    for k in keys[:rng.randint(1, 3)]:
+        sib = dict(base)
+        for _ in range(20):
+            alt = gen_case(rng)
+            if alt["model"] == base["model"] and alt.get(k) != base.get(k):
+                break
+        else:
+            continue
+        sib[k] = alt[k]
+        if base["model"] == "hh":
+            if k == "sig":
+                sib["rc"] = sib["sig"]
+            if k in ("sig", "r", "alpha") and not (sib["r"] < 0.97 * sib["sig"] or float(sib["alpha"]).is_integer()):
+                continue
+            if k in ("sig", "r") and abs(sib["r"] - sib["sig"]) < 0.03 * sib["sig"]:
+                continue
+        hist.append(sib)
+        hist.append(dict(base))
+    return hist
+
+
+def check_history(hist):
+    """returns the first property failure of the sequence (index, why) or None"""
+    for i, c in enumerate(hist):
+        _, p = check_case(c)
+        if p:
+            return i, p
+    return None
+
+
 def op_line(c):
     vals = [c["r"], c["eps"], c["sig"], c["rc"]]
     if c["model"] == "ipl":
@@ -144,6 +197,24 @@ def correspond(run):
             tdis.append((c, t))
         if p:
             pfail.append((c, p))
+    # exact ties and call histories (judged against the documented derivative only: no model line needed)
+    nt = 60 if run.tier == "quick" else 2000
+    for _ in range(nt):
+        c = gen_tie(run.rng)
+        _, p = check_case(c)
+        run.hist("stream", "tie:" + c["model"])
+        run.count(("tie", c), True)
+        if p:
+            pfail.append((c, "tie " + p))
+    nh = 120 if run.tier == "quick" else 4000
+    hfail = []
+    for _ in range(nh):
+        h = gen_history(run.rng)
+        run.hist("stream", "history:%s:len%d" % (h[0]["model"], len(h)))
+        run.count(("history", h), len(h) > 1)
+        r = check_history(h)
+        if r:
+            hfail.append((h, r))
     run.coverage["programs"] = 9
     run.coverage["disagreements_checked"] = len(tdis)
     broken = []
@@ -153,6 +224,10 @@ def correspond(run):
     if pfail:
         broken.append({"kind": "oracle", "name": "PairInteractions vs documented potential",
                        "detail": f"{len(pfail)} failures; first: {pfail[0][1]}", "cases": [c for c, _ in pfail[:10]]})
+    if hfail:
+        h, (i, p) = hfail[0]
+        broken.append({"kind": "oracle", "name": "PairInteractions call history vs documented potential",
+                       "detail": f"{len(hfail)} failing histories; first: call {i} of {len(h)}: {p}", "histories": [h for h, _ in hfail[:10]]})
     return broken
 
 
@@ -176,13 +251,36 @@ def search(run, broken):
             if k not in found_models:
                 found_models.add(k)
                 run.violation(k, p, {"case": c})
-    run.coverage["search_cases"] = len(pool)
+    hists = []
+    for b in broken:
+        hists += b.get("histories", [])
+    hists += [gen_history(run.rng) for _ in range(1500)]
+    for h in hists:
+        r = check_history(h)
+        if r:
+            i, p = r
+            # is it the history that matters?  the failing call alone, in this process, after the same prefix
+            k = key_of(p) + ":history"
+            if k not in found_models and key_of(p) not in found_models:
+                found_models.add(k)
+                run.violation(k, f"call {i} of a {len(h)}-call history in one process: {p}", {"history": h, "failing_call": i})
+    for _ in range(600):
+        c = gen_tie(run.rng)
+        _, p = check_case(c)
+        if p:
+            k = key_of(p) + ":tie"
+            if k not in found_models and key_of(p) not in found_models:
+                found_models.add(k)
+                run.violation(k, "exact tie: " + p, {"case": c})
+    run.coverage["search_cases"] = len(pool) + len(hists) + 600
     if not found_models:
         unexplained = list(broken)
     return unexplained
 
 
 def replay(run, rp):
+    if "history" in rp:
+        return check_history(rp["history"]) is not None
     if "case" in rp:
         return bool(check_case(rp["case"])[1])
     return any(check_case(c)[1] for c in rp.get("cases", []))
